@@ -532,4 +532,196 @@ theorem define_inv {cval : Cell → Ty} {s : State} {defs : List (Name × Decl)}
     intro fa hfa
     rw [hF fa hfa]
 
+/-! ### lazy resolution -/
+
+theorem lookupCell_eq_of_isSome {cval : Cell → Ty} {cells : List (Cell × Ty)} (h : CellsOK cval cells) {c : Cell}
+    (hs : (lookupCell c cells).isSome) : lookupCell c cells = some (cval c) := by
+  cases hl : lookupCell c cells with
+  | none => simp [hl] at hs
+  | some v => rw [lookupCell_ok h hl]
+
+theorem lookupCell_cons_isSome (c c' : Cell) (v : Ty) (cells : List (Cell × Ty))
+    (h : (lookupCell c cells).isSome) : (lookupCell c ((c', v) :: cells)).isSome := by
+  simp only [lookupCell]; split <;> simp_all
+
+theorem resolveLoop_all {cval : Cell → Ty} (vis : Name → Bool) (ie : Bool) : ∀ (ps : List Pending) (cells : List (Cell × Ty)),
+    CellsOK cval cells → (∀ p ∈ ps, p.val = cval p.cell) → (∀ p ∈ ps, p.need.all vis = true) →
+    (resolveLoop vis ie ps cells).kept = [] ∧ (resolveLoop vis ie ps cells).raised = false ∧
+    (resolveLoop vis ie ps cells).resolved = !ps.isEmpty ∧ CellsOK cval (resolveLoop vis ie ps cells).cells ∧
+    (∀ c, (lookupCell c cells).isSome → (lookupCell c (resolveLoop vis ie ps cells).cells).isSome) ∧
+    (∀ p ∈ ps, (lookupCell p.cell (resolveLoop vis ie ps cells).cells).isSome) := by
+  intro ps
+  induction ps with
+  | nil => intro cells hc _ _; simp [resolveLoop, hc]
+  | cons p ps ih =>
+    intro cells hc hval hneed
+    have hn : p.need.all vis = true := hneed p (by simp)
+    have hv : (lookupCell p.cell cells).getD p.val = cval p.cell := by
+      cases hl : lookupCell p.cell cells with
+      | none => simpa using hval p (by simp)
+      | some v => simpa using lookupCell_ok hc hl
+    have hc' : CellsOK cval ((p.cell, (lookupCell p.cell cells).getD p.val) :: cells) := by
+      intro q hq
+      rcases List.mem_cons.mp hq with hq | hq
+      · subst hq; exact hv
+      · exact hc q hq
+    obtain ⟨i1, i2, _, i4, i5, i6⟩ := ih _ hc' (fun q hq => hval q (by simp [hq])) (fun q hq => hneed q (by simp [hq]))
+    simp only [resolveLoop, hn, Bool.or_true, if_true]
+    refine ⟨i1, i2, by simp, i4, ?_, ?_⟩
+    · intro c hs
+      exact i5 c (lookupCell_cons_isSome c _ _ cells hs)
+    · intro q hq
+      rcases List.mem_cons.mp hq with hq | hq
+      · subst hq
+        apply i5
+        simp [lookupCell]
+      · exact i6 q hq
+
+mutual
+theorem resolveTy_unres (cells : List (Cell × Ty)) (P : Cell → Bool) (a : Ann)
+    (hP : ∀ p ∈ quotedOf a, P p.1 = true → lookupCell p.1 cells = some (.data p.2)) :
+    resolveTy Cfg.fixed cells (unres P a) = direct a := by
+  cases a with
+  | quoted c n =>
+    have := hP (c, n) (by simp [quotedOf])
+    simp only [unres, direct]
+    cases hp : P c with
+    | true => simp [resolveTy, this hp]
+    | false => simp [resolveTy]
+  | list a => simp only [unres, direct, resolveTy]; rw [resolveTy_unres cells P a (by simpa [quotedOf] using hP)]
+  | dict a => simp only [unres, direct, resolveTy]; rw [resolveTy_unres cells P a (by simpa [quotedOf] using hP)]
+  | tuple as => simp only [unres, direct, resolveTy]; rw [resolveTyL_unres cells P as (by simpa [quotedOf] using hP)]
+  | union as =>
+    simp only [unres, direct, resolveTy, Cfg.fixed, if_true]
+    rw [← Cfg.fixed, resolveTyL_unres cells P as (by simpa [quotedOf] using hP)]
+  | _ => simp [unres, direct, resolveTy]
+theorem resolveTyL_unres (cells : List (Cell × Ty)) (P : Cell → Bool) (as : List Ann)
+    (hP : ∀ p ∈ quotedOfL as, P p.1 = true → lookupCell p.1 cells = some (.data p.2)) :
+    resolveTyL Cfg.fixed cells (unresL P as) = directL as := by
+  cases as with
+  | nil => rfl
+  | cons a as =>
+    simp only [unresL, directL, resolveTyL]
+    rw [resolveTy_unres cells P a (fun p hp => hP p (by simp [quotedOfL, hp])),
+        resolveTyL_unres cells P as (fun p hp => hP p (by simp [quotedOfL, hp]))]
+end
+
+theorem resolveTy_direct (cells : List (Cell × Ty)) (a : Ann) : resolveTy Cfg.fixed cells (direct a) = direct a := by
+  have := resolveTy_unres cells (fun _ => false) a (by intro p _ h; cases h)
+  rwa [unres_false] at this
+
+theorem pcells_nil : pcells [] = fun _ => false := by
+  funext c; simp [pcells]
+
+theorem lookup_parsers {cval : Cell → Ty} : ∀ {parsers : List (Name × PState)} {defs : List (Name × Decl)},
+    ParsersOK cval parsers defs → ∀ {k : Name} {d : Decl}, lookupD k defs = some d →
+    ∃ ps, lookupP k parsers = some ps ∧ ClassOK cval d ps := by
+  intro parsers defs h
+  induction h with
+  | nil => intro k d hk; simp [lookupD] at hk
+  | cons hc _ ih =>
+    intro k' d' hk
+    simp only [lookupD] at hk
+    simp only [lookupP]
+    split at hk
+    · rename_i he
+      cases hk
+      simp only [he, if_true]
+      exact ⟨_, rfl, hc⟩
+    · rename_i he
+      simp only [he]
+      exact ih hk
+
+theorem setP_ok {cval : Cell → Ty} : ∀ {parsers : List (Name × PState)} {defs : List (Name × Decl)},
+    ParsersOK cval parsers defs → ∀ {k : Name} {d : Decl} (ps1 : PState), lookupD k defs = some d → ClassOK cval d ps1 →
+    ParsersOK cval (setP k ps1 parsers) defs ∧ lookupP k (setP k ps1 parsers) = some ps1 := by
+  intro parsers defs h
+  induction h with
+  | nil => intro k d _ hk; simp [lookupD] at hk
+  | cons hc ht ih =>
+    intro k' d' ps1 hk hok
+    simp only [lookupD] at hk
+    simp only [setP]
+    split at hk
+    · rename_i he
+      cases hk
+      simp only [he, if_true]
+      exact ⟨ParsersOK.cons hok ht, by simp [lookupP, he]⟩
+    · rename_i he
+      simp only [he]
+      obtain ⟨i1, i2⟩ := ih ps1 hk hok
+      exact ⟨ParsersOK.cons hc i1, by simp [lookupP, he, i2]⟩
+
+theorem resolveParser_ok {cval : Cell → Ty} {s : State} {defs : List (Name × Decl)} (h : Inv cval s defs)
+    {k : Name} {d : Decl} (hk : lookupD k defs = some d)
+    (hvis : ∀ n ∈ d.strNames, n ∈ boundNames defs ∨ (d.isFunc = false ∧ n = k)) :
+    ∃ s1 ps1, resolveParser Cfg.fixed s k = (s1, true) ∧ Inv cval s1 defs ∧
+      lookupP k s1.parsers = some ps1 ∧ ps1.fields = d.fields.map (fun fa => (fa.1, fa.2.direct)) := by
+  obtain ⟨ps, hlk, hok⟩ := lookup_parsers h.parsers hk
+  simp only [resolveParser, hlk]
+  by_cases hemp : ps.pending.isEmpty = true
+  · simp only [hemp, if_true]
+    refine ⟨s, ps, rfl, h, hlk, ?_⟩
+    have : ps.pending = [] := by simpa using hemp
+    rw [hok.flds, this, pcells_nil]
+    simp [curTy_false]
+  · simp only [hemp]
+    -- every pending reference can be evaluated
+    have hneed : ∀ p ∈ ps.pending, p.need.all (visOf s (if ps.selfVis = true then some k else none)) = true := by
+      intro p hp
+      simp only [List.all_eq_true]
+      intro n hn
+      rcases hvis n ((hok.pend p hp).2 n hn) with hb | ⟨hf, hn⟩
+      · simp [visOf, h.vis, hb]
+      · simp [visOf, hok.selfv, hf, hn]
+    obtain ⟨r1, r2, r3, r4, _, r6⟩ := resolveLoop_all (cval := cval) _ ps.ignoreErr ps.pending s.cells h.cells
+      (fun p hp => (hok.pend p hp).1) hneed
+    have hres : (resolveLoop (visOf s (if ps.selfVis = true then some k else none)) ps.ignoreErr ps.pending s.cells).resolved = true := by
+      rw [r3]; simpa using hemp
+    simp only [r2, r1, hres, if_true, Bool.false_eq_true, if_false]
+    -- the resolved fields are the direct reading
+    have hflds : ps.fields.map (fun p => (p.1, resolveTy Cfg.fixed
+        (resolveLoop (visOf s (if ps.selfVis = true then some k else none)) ps.ignoreErr ps.pending s.cells).cells p.2))
+        = d.fields.map (fun fa => (fa.1, fa.2.direct)) := by
+      rw [hok.flds, List.map_map]
+      apply List.map_congr_left
+      intro fa hfa
+      have hlook : ∀ c, pcells ps.pending c = true →
+          lookupCell c (resolveLoop (visOf s (if ps.selfVis = true then some k else none)) ps.ignoreErr ps.pending s.cells).cells = some (cval c) := by
+        intro c hc
+        simp only [pcells, List.any_eq_true] at hc
+        obtain ⟨q, hq, hqc⟩ := hc
+        have : q.cell = c := by simpa using hqc
+        subst this
+        exact lookupCell_eq_of_isSome r4 (r6 q hq)
+      have hfaok := hok.anns fa hfa
+      rcases fa with ⟨f, fa⟩
+      cases fa with
+      | plain a =>
+        simp only [Function.comp, curTy, FieldAnn.direct]
+        rw [resolveTy_unres]
+        intro p hp hpc
+        rw [hlook p.1 hpc, quotedOf_ok a hfaok p hp]
+      | str c e =>
+        simp only [Function.comp, curTy, FieldAnn.direct]
+        cases hpc : pcells ps.pending c with
+        | true =>
+          simp only [if_true, resolveTy, hlook c hpc]
+          exact congrArg _ hfaok
+        | false => simp [resolveTy_direct]
+    have hok1 : ClassOK cval d { ps with pending := [], fields := ps.fields.map (fun p => (p.1, resolveTy Cfg.fixed
+        (resolveLoop (visOf s (if ps.selfVis = true then some k else none)) ps.ignoreErr ps.pending s.cells).cells p.2)) } := by
+      refine ⟨?_, by intro p hp; simp at hp, hok.loc, hok.ign, hok.selfv, hok.anns⟩
+      simp only [hflds, pcells_nil]
+      apply List.map_congr_left
+      intro fa _
+      simp [curTy_false]
+    obtain ⟨p1, p2⟩ := setP_ok h.parsers _ hk hok1
+    refine ⟨_, _, rfl, ⟨h.vis, ?_, p1⟩, p2, hflds⟩
+    simp only
+    split
+    · intro q hq
+      exact r4 q (List.mem_filter.mp hq).1
+    · exact r4
+
 end Utv.C17
